@@ -1,9 +1,12 @@
 (* REGENERATED from src/mxlpy/meta/source_tools.py by harness/c06.py::extract_facts; do not edit.
    An unrecognised shape yields an *Unknown / *Other entry, which breaks C06_facts_pinned. *)
-From FnSym Require Import FnToSym.
+From FnSym Require Import FnToSym Resolve.
 Definition gen_fnsym_facts : facts :=
   mkFacts
     [(Add, Add); (Sub, Sub); (Mul, Mul); (Div, Div); (Pow, Pow); (Mod, Mod); (FloorDiv, FloorDiv)]
     [(UAdd, UAdd); (USub, USub)]
     [(Gt, RelGt); (GtE, RelGe); (Lt, RelLt); (LtE, RelLe); (CEq, RelEq); (CNe, RelNe)]
     true SubsSim TupSim StmtRaise (CfContinuation BrCopy BrCopy) KwRefused true true ConstAtCall FbRaise ArityStrict AnRefuse.
+(* name resolution (operand order of the `members | local imports` merges), aliases of function-local imports,
+   what get_fn_ast does with a lambda: harness/c06_scope.py::extract_rfacts *)
+Definition gen_fnsym_rfacts : rfacts := mkRFacts ScopeLocalWins AliasHonoured LamRefused.
